@@ -590,6 +590,9 @@ func wfRangeReq(o *ObjectRangeRequest) bool {
 //@ ensures [C14]     ok:     imp(has(u.buckets, bucket), ret1 == nil && ret0 != nil)
 //@ ensures [C14]     limit:  imp(ret1 == nil, len(ret0.Uploads) <= max(limit, 1))
 //@ ensures [C14]     sound:  imp(ret1 == nil, upListed(BU, ret0))
+//@ ensures [C14]     nextok: imp(ret1 == nil && ret0.IsTruncated, has(BU.uploads, ret0.NextUploadIDMarker) && BU.uploads[ret0.NextUploadIDMarker] != nil &&
+//@                             BU.uploads[ret0.NextUploadIDMarker].Object == ret0.NextKeyMarker)
+//@ ensures [C14]     nonext: imp(ret1 == nil && !ret0.IsTruncated, ret0.NextUploadIDMarker == "" && ret0.NextKeyMarker == "")
 //@ ensures           locks:  u.mu == 0
 
 //@ func (*uploader).AbortMultipartUpload
@@ -927,6 +930,9 @@ func wfRangeReq(o *ObjectRangeRequest) bool {
 //@ func (*GoFakeS3).writeGetOrHeadObjectResponse
 //@ props C09 C01
 //@ requires           inv:    gInv(g) && w != nil && rqInv(r) && obj != nil
+//@ loop 1 invariant   meta:   allstr(k, imp(visited(k), hdr_set(w.Header())[k] && hdr_val(w.Header())[k] == obj.Metadata[k]))
+//@ ensures [C01]      meta:   imp(ret0 == nil, allstr(k, imp(has(obj.Metadata, k) && k != "ETag" && k != "x-amz-version-id" && k != "Accept-Ranges",
+//@                              hdr_set(w.Header())[k] && hdr_val(w.Header())[k] == obj.Metadata[k])))
 //@ ensures [C01]      etag:   imp(ret0 == nil, hdr_set(w.Header())["ETag"] && hdr_val(w.Header())["ETag"] == "\"" + hex.EncodeToString(obj.Hash) + "\"")
 //@ ensures [C05,C01]  vid:    imp(ret0 == nil && obj.VersionID != "", hdr_set(w.Header())["x-amz-version-id"] && hdr_val(w.Header())["x-amz-version-id"] == string(obj.VersionID))
 //@ modifies nothing
@@ -997,6 +1003,8 @@ func wfRangeReq(o *ObjectRangeRequest) bool {
 //@ props C09 C04
 //@ ensures [C04]      keys:   imp(rerr == nil, 0 <= page.MaxKeys && page.MaxKeys <= MaxBucketKeys)
 //@ ensures [C04]      err:    imp(rerr != nil, errcode(rerr) == ErrInvalidArgument || errcode(rerr) == ErrInvalidToken)
+//@ ensures [C04]      tokval: imp(rerr == nil && !has(query, "marker") && has(query, "continuation-token"),
+//@                              page.Marker == str(nth(base64.URLEncoding.DecodeString(query.Get("continuation-token")), 0)))
 //@ ensures [C04]      v1:     imp(rerr == nil && has(query, "marker"), page.HasMarker && page.Marker == query.Get("marker"))
 //@ ensures [C04]      token:  imp(rerr == nil && !has(query, "marker") && has(query, "continuation-token"), page.HasMarker)
 //@ ensures [C04]      start:  imp(rerr == nil && !has(query, "marker") && !has(query, "continuation-token") && has(query, "start-after"),
